@@ -283,7 +283,7 @@ def canon(v):
     """Canonical, hashable, JSON-able form of an implementation return value."""
     bs = import_bitstring()
     if isinstance(v, bs.Bits):
-        pos = getattr(v, '_pos', None) if isinstance(v, bs.ConstBitStream) else None
+        pos = getattr(v, 'pos', None) if isinstance(v, bs.ConstBitStream) else None
         return ('bits', type(v).__name__, v.bin, pos)
     if isinstance(v, float):
         return ('float', v.hex() if v == v else 'nan')
@@ -507,8 +507,10 @@ def finish(mod, total, tier, seed, wall, nshards):
     ev = dict(property_id=prop, tier=tier, seed=seed, level='model_checking', coverage=cov,
               assumptions=desc.get('assumptions', []), wall_s=round(wall, 2),
               violations=sum(g['count'] for _, g in new_groups) + regressed)
-    os.makedirs(os.path.join(VERIF, 'evidence'), exist_ok=True)
-    with open(os.path.join(VERIF, 'evidence', f"{prop}.json"), 'w') as f:
+    # BSMC_EVIDENCE_DIR: experiments against a scratch copy of the library (BSMC_REPO) must not overwrite the evidence of /repo
+    evdir = os.environ.get('BSMC_EVIDENCE_DIR') or os.path.join(VERIF, 'evidence')
+    os.makedirs(evdir, exist_ok=True)
+    with open(os.path.join(evdir, f"{prop}.json"), 'w') as f:
         json.dump(ev, f, indent=1, default=repr)
     for ln in lines:
         print(ln)
